@@ -431,7 +431,7 @@ class Parser:
             self.lx.next()
             self.push('decl-name')
             name = self.ident('interface name', TYPE_NAME_RESERVED)
-            self.type_params()
+            tparams = self.type_params()
             nt = self.lx.peek()
             if not (nt.is_p('{') or (nt.kind == 'ident' and nt.is_kw('extends'))):
                 self.reject("expected '{' after interface name", nt)
@@ -442,12 +442,12 @@ class Parser:
                 while self.accept_p(','):
                     ext.append(self.type_())
             members = self.object_type_body()
-            return N('Interface', name=name, extends=ext, members=members, pos=t.pos)
+            return N('Interface', name=name, extends=ext, members=members, pos=t.pos, tparams=tparams)
         if t.is_kw('type'):
             self.lx.next()
             self.push('decl-name')
             name = self.ident('type alias name', TYPE_NAME_RESERVED)
-            self.type_params()
+            tparams = self.type_params()
             self.expect_p('=')
             self.pop()
             ty = self.type_()
@@ -455,7 +455,7 @@ class Parser:
                 nt = self.lx.peek()
                 if nt.kind != 'eof' and not (nt.kind == 'ident' and (nt.is_kw('export') or nt.is_kw('import'))):
                     self.reject("expected ';' after type alias", nt)
-            return N('TypeAlias', name=name, type=ty, pos=t.pos)
+            return N('TypeAlias', name=name, type=ty, pos=t.pos, tparams=tparams)
         if t.is_kw('const'):
             self.lx.next()
             self.push('decl-name')
@@ -483,7 +483,7 @@ class Parser:
             self.lx.next()
             self.push('decl-name')
             name = self.ident('function name')
-            self.type_params()
+            tparams = self.type_params()
             nt = self.lx.peek()
             if not nt.is_p('('):
                 self.reject("expected '(' after function name", nt)
@@ -498,7 +498,7 @@ class Parser:
                     self.reject("expected '{' after return type", nt)
                 self.pop()
             body = self.block()
-            return N('Function', name=name, params=params, ret=ret, body=body, is_async=is_async, pos=t.pos)
+            return N('Function', name=name, params=params, ret=ret, body=body, is_async=is_async, pos=t.pos, tparams=tparams)
         self.reject('unsupported export declaration', t)
 
     def type_params(self):
